@@ -344,6 +344,8 @@ class Engine:
         return True
 
     def load(self, st, lv, vol=False, loc=None, ty=None):
+        if is_const(lv):
+            return lv  # a prvalue constant bound to a const reference: reading through the reference yields the constant
         if vol:
             root = lv
             while root[0] in ("fld", "idx"):
@@ -1156,8 +1158,27 @@ class Engine:
 
     def exec_init(self, st, fr, ini, thisv):
         if "n" not in ini:
-            # base initialiser
-            return [s for s, _ in self.ev(st, fr, ini["e"])] if ini.get("written") else [st]
+            # base initialiser: the base constructor runs on the SAME object (members of a base are members of this object)
+            ie_ = ini["e"]
+            ce_ = self._strip_e(ie_)
+            if isinstance(ce_, dict) and ce_.get("k") == "ctor":
+                callee = self.callee_fn(ce_["fn"])
+                if callee is not None and fr.depth < self.max_depth and not ce_.get("copymove"):
+                    pm = ["lv" if ((p_["t"] or {}).get("ref") or self.is_rec(p_["t"] or {})) else "v" for p_ in callee["params"]][:len(ce_["args"])]
+                    outs = []
+                    for s, av in self.ev_args(st, fr, ce_["args"], pm):
+                        if s.status != "run":
+                            outs.append(s)
+                            continue
+                        outs += [s2 for s2, _ in self.inline(s, callee, thisv, av, pm, ce_.get("loc"))]
+                    return outs
+                if ce_.get("copymove") and len(ce_["args"]) == 1:
+                    outs = []
+                    for s, src in self.ev_lv(st, fr, ce_["args"][0]):
+                        self.copy_object(s, self.deref(thisv), src)
+                        outs.append(s)
+                    return outs
+            return [s for s, _ in self.ev(st, fr, ie_)] if ini.get("written") else [st]
         target = ("fld", self.deref(thisv), ini["n"])
         ie = ini["e"]
         it = ie.get("t") or {}
